@@ -5,6 +5,8 @@ import RagcModel.Props.C07
 import RagcModel.Props.C09
 import RagcModel.Props.C10
 import RagcModel.Props.C12
+import RagcModel.Lemmas.WriterBases
+import RagcModel.Lemmas.WriterSamples
 /-!
 # C01 — lossless round trip: create then extract returns every sample exactly
 
@@ -31,8 +33,27 @@ What remains outside these theorems, and what covers it:
   layers (registration of each piece under the descriptor that points at its entry) is what the
   model says: not proved; it is checked on every generated archive by the independent decoder's
   `violations` (C02 harness) and by the oracle extract = input (C01 harness).
-  The end-to-end statement `wf_read : ArchiveWF inp a → decodeArchive a = inp` for an executable
-  well-formedness predicate is NOT proved.
+
+## The reference writer and the end-to-end statement
+
+`Model/Writer.lean` defines `writeArchive cfg inp dec zc`, a whole-archive reference writer composed
+from the layer models, with every heuristic / scheduling choice of the compressor as data
+(`Decisions`), and the decidable `DecisionsOK`. The C02 harness shows that every real archive it
+generates IS an instance: the decisions read off the archive make `writeArchive` reproduce the file
+byte for byte. Proved about it (last section of this file and of `Props/C02.lean`), for ALL
+decisions, all inputs over the literal codes, every `k ≥ 1`:
+
+* `pieces_tile`: the piece lengths accepted by `DecisionsOK` cut each contig into a `k`-overlap tiling;
+* `Props.C02.container_returns_every_part`, `group_roundtrip`, `read_write_segments`;
+* `read_write_bases`: for well-formed decisions, from the group table the decoder builds
+  (`group_roundtrip`), `decodeContig` on the descriptors the writer registers returns every
+  contig's bases and reports no violation (`addressing`, `raw-length`, `segment-shorter-than-k`);
+* `read_write_samples`: the decoder's last stage returns all samples with the input's catalogue
+  and bases and no violation.
+
+NOT proved — the target `read_write : DecisionsOK … → writeArchive … = some bs → decodeArchive bs zd
+= ok d ∧ d.catalogue = catalogueOf inp ∧ d.bases = basesOf inp ∧ d.violations = []`. What is
+missing is glue only, listed precisely at the end of this file (`read_write` — status).
 -/
 namespace Ragc.Props.C01
 open Ragc.Segment Ragc.Range Ragc.Packs Ragc.Roundtrip
@@ -325,5 +346,133 @@ theorem kmer_rc_differs_on_iupac :
   intro b hb
   unfold Ragc.Gen.kmerRcBase Ragc.Range.complementBase
   (repeat' split) <;> omega
+
+/-! ## the reference writer: pieces and bases -/
+
+/-- The piece lengths that `DecisionsOK` accepts for a contig (`Writer.tilesB`) cut it into a
+`k`-overlapping tiling: segmentation at splitters (C10 `split_tiles`) and every split of a segment
+(`split_at_position_tiles`) produce such lengths, and nothing else is needed of them. -/
+theorem pieces_tile (k : Nat) (c : List Nat) (lens : List Nat)
+    (h : Ragc.Writer.tilesB k c.length lens = true) :
+    Tiles k c (Ragc.Writer.cutPieces k c lens) ∧
+      (Ragc.Writer.cutPieces k c lens).map List.length = lens :=
+  ⟨Ragc.WriterLemmas.tiles_of_check k c lens h, Ragc.WriterLemmas.cutPieces_lengths0 k c lens h⟩
+
+example : Ragc.Writer.tilesB 3 10 [6, 7] = true ∧
+    Ragc.Writer.cutPieces 3 [0, 1, 2, 3, 0, 1, 2, 3, 0, 1] [6, 7] = [[0, 1, 2, 3, 0, 1], [3, 0, 1, 2, 3, 0, 1]] := by
+  decide
+
+open Ragc.Writer Ragc.WriterLemmas Ragc.Agc3 in
+/-- **The bases of every contig come back.** For every configuration with `k ≥ 1`, every input
+over the LZ literal codes, ALL well-formed decisions (`DecisionsOK`: any tiling of each contig, any
+group / orientation per piece, any arrival order inside each group, any group creation order, any
+tuple flags), and any `zc`: let `outs` be what the reference writer stores for the groups
+(`writeGroups`, the first stage of `writeArchive`). If the decoder's group table `gds` holds, for
+every group, what the group's plan says — which is what `decodeGroup` produces from the group's
+two streams (`Props.C02.group_roundtrip`) — then for every contig of every sample, `decodeContig`
+on the descriptors the writer registers for it (`descOf`: group, in-group id from the `Packs`
+machine, flag, raw length) returns the SAME violation accumulator and exactly the contig's bases.
+
+Composition of: the tiling (`pieces_tile`), the piece ↔ group consistency of `DecisionsOK`,
+`read_write_segments` (C02 `packs_addressing`, C09), orientation (`orientation_roundtrip`) and
+`reconstruct_contig` (C07). -/
+theorem read_write_bases (cfg : Cfg) (inp : List Sample) (dec : Decisions) (zc : Nat → List Nat → List Nat)
+    (outs : List GroupOut) (hok : DecisionsOK cfg inp dec) (hcodes : codesOK inp)
+    (hw : writeGroups cfg zc (storedAll cfg.k inp dec) dec.groups = some outs)
+    (gds : Array GroupD)
+    (hgds : ∀ G ∈ dec.groups, ∀ datas P, G.members.mapM (lookup3 (storedAll cfg.k inp dec)) = some datas →
+      planGroup cfg.minMatch G datas = some P → ∃ GD, Ragc.Agc3.findGroup gds G.id = some GD ∧ GDMatches GD P)
+    (s c : Nat) (smp : Sample) (ctg : Contig) (dcs : List (List PieceDec)) (ds : List PieceDec)
+    (h1 : inp[s]? = some smp) (h2 : smp.contigs[c]? = some ctg) (h3 : dec.pieces[s]? = some dcs)
+    (h4 : dcs[c]? = some ds) (sampleName contigName : List Nat) (a : Acc) :
+    decodeContig cfg.k cfg.minMatch gds sampleName a (contigName, ds.map (descOf outs))
+      = (a, ⟨contigName, ds.map (descOf outs), ctg.data⟩) :=
+  contig_bases cfg inp dec zc outs (decOK_of cfg inp dec hok) hcodes hw gds hgds s c smp ctg dcs ds
+    h1 h2 h3 h4 sampleName contigName a
+
+/-- Non-vacuity: one sample, a contig of 10 symbols cut into two 3-overlapping pieces (the first is
+the reference of LZ group 16, the second joins raw group 0 reverse-complemented) and a contig of 3
+symbols (raw group 0): the decisions are well formed, the input is over the codes, and the
+reference writer stores the groups. -/
+private def exCfg : Ragc.Writer.Cfg := ⟨3, 5, 10, 17⟩
+private def exInp : List Ragc.Writer.Sample :=
+  [⟨[83], [⟨[99], [0, 1, 2, 3, 0, 1, 2, 3, 0, 1]⟩, ⟨[100], [2, 4, 1]⟩]⟩]
+private def exDec : Ragc.Writer.Decisions :=
+  ⟨[[[⟨6, 16, 0, false⟩, ⟨7, 0, 0, true⟩], [⟨3, 0, 1, false⟩]]],
+   [⟨16, false, [(0, 0, 0)]⟩, ⟨0, false, [(0, 0, 1), (0, 1, 0)]⟩]⟩
+
+example : Ragc.Writer.DecisionsOK exCfg exInp exDec ∧ Ragc.Writer.codesOK exInp ∧
+    (Ragc.Writer.writeGroups exCfg zcToy (Ragc.Writer.storedAll exCfg.k exInp exDec) exDec.groups).isSome = true ∧
+    Ragc.Writer.catalogueOf exInp = [([83], [[99], [100]])] := by
+  refine ⟨by decide, by decide, by decide, by decide⟩
+
+open Ragc.Writer Ragc.WriterLemmas Ragc.Agc3 in
+/-- **All samples come back: catalogue and bases.** Same hypotheses as `read_write_bases`. The
+decoder's last stage `decodeSamples`, run on the sample names and on the per-sample tables
+`contig name ↦ descriptors` that the writer's catalogue holds (`Writer.catalogue`, C03 gives these
+tables back from the collection streams), returns the SAME violation accumulator and samples whose
+catalogue is `catalogueOf inp` and whose bases are `basesOf inp` — exactly the last three
+conjuncts of the target `read_write`, from the decoded catalogue and group table on. -/
+theorem read_write_samples (cfg : Cfg) (inp : List Sample) (dec : Decisions) (zc : Nat → List Nat → List Nat)
+    (outs : List GroupOut) (hok : DecisionsOK cfg inp dec) (hcodes : codesOK inp)
+    (hw : writeGroups cfg zc (storedAll cfg.k inp dec) dec.groups = some outs)
+    (gds : Array GroupD)
+    (hgds : ∀ G ∈ dec.groups, ∀ datas P, G.members.mapM (lookup3 (storedAll cfg.k inp dec)) = some datas →
+      planGroup cfg.minMatch G datas = some P → ∃ GD, Ragc.Agc3.findGroup gds G.id = some GD ∧ GDMatches GD P)
+    (a : Acc) :
+    ∃ samples : List DSample,
+      decodeSamples cfg.k cfg.minMatch gds (inp.map (·.name))
+        (List.zipWith (fun s dcs => tableOf outs s.contigs dcs) inp dec.pieces).toArray a = (a, samples.toArray) ∧
+      samples.map (fun s => (s.name, s.contigs.map (·.name))) = catalogueOf inp ∧
+      samples.map (fun s => s.contigs.map (·.bases)) = basesOf inp := by
+  have hd := decOK_of cfg inp dec hok
+  exact ⟨_, decodeSamples_ok cfg inp dec zc outs hd hcodes hw gds hgds a,
+    (expected_samples cfg inp dec outs hd).1, (expected_samples cfg inp dec outs hd).2⟩
+
+example : Ragc.Writer.basesOf exInp = [[[0, 1, 2, 3, 0, 1, 2, 3, 0, 1], [2, 4, 1]]] ∧
+    Ragc.WriterLemmas.tableOf [⟨16, none, [], [0]⟩, ⟨0, none, [], [1, 2]⟩] (exInp.map (·.contigs)).flatten
+      (exDec.pieces.flatten) =
+      [([99], [⟨16, 0, false, 6⟩, ⟨0, 1, true, 7⟩]), ([100], [⟨0, 2, false, 3⟩])] := by decide
+
+/-! ### `read_write` — status
+
+Target (DESIGN §5 C01.5), for `bs` = the bytes of the reference writer:
+
+    read_write : DecisionsOK cfg inp dec → (∀ l x, zd (zc l x) = some x) → (∀ l x, zc l x = [] → x = []) →
+      codesOK inp → writeArchive cfg inp dec zc = some bs →
+      ∃ d, decodeArchive bs zd = .ok d ∧ d.catalogue = catalogueOf inp ∧ d.bases = basesOf inp ∧
+        d.violations = []
+
+No bound `k ≥ 3` is forced: the independent decoder has no "2-bit packed?" heuristic; `k ≥ 1` is
+part of `DecisionsOK`.
+
+Proved, with these exact names (all decisions, all inputs, any `zc`/`zd` with the two C12 facts):
+`Props.C02.container_returns_every_part` (bytes → every part of every stream),
+`Props.C02.group_roundtrip` (parts of a group → decoded group, no violation),
+`Props.C02.read_write_segments` (descriptor → member data),
+`read_write_bases` (group table → bases of every contig, no violation), `read_write_samples`
+(catalogue tables + group table → all samples: catalogue = `catalogueOf inp`, bases = `basesOf inp`,
+no violation), `pieces_tile`;
+and the catalogue codecs in C03 (`sample_names_roundtrip`, `names_roundtrip`, `details_roundtrip`).
+
+Missing for `read_write` (pure composition, no new idea; `decodeArchive` is already split into
+the stages named below in `Model/Agc3.lean`):
+1. instantiate `container_returns_every_part` with `Writer.regNames` / `Writer.partList`: the names
+   are distinct and NUL-free (`stream_name_injective`, `ref_ne_delta`, `xname_not_fixed`), and
+   compute `partsOf (partList …) name` for the seven fixed names and for `deltaName g` / `refName g`;
+2. `checkFixedStreams`, `checkTypeInfo` (a closed computation on `Writer.fileTypeInfo`), `readParams`
+   (`le32 (leBytes 4 v) = v` for `v < 2^32`) return the accumulator unchanged;
+3. `decodeCatalogue`: `parseDetailsPart (detailsPart zc b)` gives back the five frames
+   (`decNats 10 ∘ encNats`, sizes `< 2^32` by `sizesFit`), then per batch `names_roundtrip` and
+   `details_roundtrip` (with `fits (shape) b`), folded over `Details.storeBatches` by `batchStep`;
+4. `decodeGroups`: `xStreams` over the directory (`decoder_parses_names`; fixed names do not parse),
+   `addStream` over distinct group ids gives one `Group` per group with its two part lists, then
+   `group_roundtrip` folded over them; `findGroup` in the result; `checkUnused` (every group has a
+   member whose descriptor names it);
+5. (done: `read_write_samples`) `decodeSamples` = `read_write_bases` folded over contigs and samples;
+   what remains is to feed it the tables of step 3 and the group table of step 4.
+Until then these steps are covered by the correspondence run only: the independent decoder decodes
+every real archive with `violations = []` and equal to the input, and the reference writer
+reproduces every real archive byte for byte (C02 harness). -/
 
 end Ragc.Props.C01
